@@ -84,6 +84,9 @@ inductive ReqOutcome where
   | returnsNoRead        -- an event, a buffered key or None: no read happened
   | returnsAfterRead     -- select said ready, `_nonblocking_read` ran
   | raisesAfterRead      -- ... and find_key raised (D15/D12)
+  | returnsAfterPaste    -- a burst above the paste threshold: the paste loop tops the buffer up, its last
+                         --   `_nonblocking_read` finds nothing (BlockingIOError inside `with Nonblocking`)
+  | emptyRead            -- select said ready but os.read returned b"" (EOF / SIGTSTP via dsusp): returns None
   | keyboardInterrupt    -- SIGINT while blocked in select (raises iff the handler then installed is the default one)
   deriving DecidableEq, Repr
 
@@ -187,6 +190,16 @@ def request (T : TtyOps A) (main : Bool) (cfg : InputCfg) (id : Nat) (o : ReqOut
       let origFl := w.fl
       let w := { w with fl := T.nonblock origFl }
       ({ w with fl := origFl }, true)
+    | .returnsAfterPaste =>
+      let origFl := w.fl
+      let w := { w with fl := T.nonblock origFl }                            -- first read: the burst
+      let w := { w with fl := origFl }
+      let w := { w with fl := T.nonblock w.fl }                              -- top-up read of the paste loop:
+      ({ w with fl := origFl }, false)                                       --   BlockingIOError, caught INSIDE the with
+    | .emptyRead =>
+      let origFl := w.fl
+      let w := { w with fl := T.nonblock origFl }
+      ({ w with fl := origFl }, false)
   let w := if replaced then { w with sigint := orig } else w                 -- ReplacedSigIntHandler.__exit__
   (w, raised)
 
